@@ -17,7 +17,11 @@ RULE = ('one derivation of the verification grammar (1-3 statements) is '
         'runs; empty gaps stay empty), inner whitespace of every multi-word '
         'keyword (ORDER BY, GROUP BY, UNION ALL, all JOIN variants, NOT '
         'NULL, ASC/DESC NULLS FIRST/LAST, CREATE OR REPLACE, NOT LIKE, '
-        'PRIMARY KEY), letter case of every keyword. Oracle: same statement '
+        'PRIMARY KEY), letter case of every keyword; 15 % of the cases are '
+        'procedural scripts (statement; CREATE [OR REPLACE] PROCEDURE|'
+        'FUNCTION with nested IF/END IF, WHILE/END WHILE, LOOP/END LOOP, '
+        'BEGIN/END, CASE expressions; statement;) respelled on the same '
+        'three axes. Oracle: same statement '
         'count, same significant tokens modulo keyword spelling, same '
         'get_type(), same tree shape (class names, leaf types, whitespace '
         'leaves ignored). distinct_nontrivial = distinct (axes, statement '
@@ -146,11 +150,109 @@ def make_pair(rng, gen):
     return base, resp, axes, meta
 
 
+# ---- procedural scripts (END IF, END WHILE, END LOOP, CREATE OR REPLACE) -----
+WS_RUNS = [' ', '  ', '\t', '\n', '\n  ', '\r\n', ' \n', '\t\t', '   ']
+
+
+def proc_tokens(rng):
+    """[(text, is keyword)] of: statement; CREATE ... BEGIN body END;
+    statement; - the body uses the block forms the splitter's level protocol
+    handles (C17's clean sub-grammar)."""
+    K = lambda w: (w, True)          # noqa: E731
+    N = lambda w: (w, False)         # noqa: E731
+    names = ['a', 'b', 'cnt', 'v1', 'total', 'x']
+
+    def cond():
+        return [N(rng.choice(names)), N(rng.choice(['=', '>', '<'])),
+                N(rng.choice(['1', "'x'", 'b']))]
+
+    def simple():
+        x = rng.random()
+        if x < 0.3:
+            return [K('SET'), N(rng.choice(names)), N('='),
+                    N(rng.choice(['1', "'end'", 'a + 1'])), N(';')]
+        if x < 0.55:
+            return [K('SELECT'), N(rng.choice(names)), K('INTO'),
+                    N(rng.choice(names)), K('FROM'), N('t'), K('WHERE')] \
+                + cond() + [N(';')]
+        if x < 0.7:
+            return [K('RETURN'), N('1'), N(';')]
+        if x < 0.85:
+            return [K('SET'), N('x'), N('='), K('CASE'), K('WHEN')] + cond() \
+                + [K('THEN'), N('1'), K('ELSE'), N('2'), K('END'), N(';')]
+        return [K('UPDATE'), N('t'), K('SET'), N('a'), N('='), N('1'),
+                K('WHERE')] + cond() + [K('ORDER BY'), N('a'), N(';')]
+
+    def items(d):
+        out = []
+        for _ in range(rng.randint(1, 3)):
+            x = rng.random()
+            if d <= 0 or x < 0.45:
+                out += simple()
+            elif x < 0.65:
+                out += [K('IF')] + cond() + [K('THEN')] + items(d - 1)
+                if rng.random() < 0.5:
+                    out += [K('ELSE')] + items(d - 1)
+                out += [K('END IF'), N(';')]
+            elif x < 0.8:
+                out += [K('WHILE')] + cond() + [K('DO')] + items(d - 1) \
+                    + [K('END WHILE'), N(';')]
+            elif x < 0.9:
+                out += [K('LOOP')] + items(d - 1) + [K('END LOOP'), N(';')]
+            else:
+                out += [K('BEGIN')] + items(d - 1) + [K('END'), N(';')]
+        return out
+    toks = [K('SELECT'), N('1'), N(';')]
+    what = rng.choice(['PROCEDURE', 'FUNCTION'])
+    toks += [K(rng.choice(['CREATE', 'CREATE OR REPLACE'])), K(what),
+             N('p1()')]
+    if what == 'FUNCTION':
+        toks += [K('RETURNS'), N('int')]
+    toks += [K('BEGIN')] + items(rng.choice([1, 2, 2, 3])) + [K('END'),
+                                                             N(';')]
+    toks += [K('SELECT'), N('a'), K('FROM'), N('t'), K('GROUP BY'), N('a'),
+             N(';')]
+    if rng.random() < 0.5:
+        toks += [K('COMMIT'), N(';')]
+    return toks
+
+
+def make_proc_pair(rng):
+    toks = proc_tokens(rng)
+    outer = rng.random() < 0.6
+    inner = rng.random() < 0.6
+    case = rng.random() < 0.5
+    if not (outer or inner or case):
+        inner = True
+
+    def spell(respell):
+        out = []
+        for i, (w, kw) in enumerate(toks):
+            if i and w != ';':
+                out.append(rng.choice(WS_RUNS) if respell and outer else ' ')
+            if kw:
+                parts = w.split(' ')
+                if respell and case:
+                    parts = [''.join(c.lower() if rng.random() < 0.5 else c
+                                     for c in x) for x in parts]
+                w = (rng.choice(WS_RUNS) if respell and inner
+                     else ' ').join(parts)
+            out.append(w)
+        return ''.join(out)
+    axes = 'proc:' + '+'.join(x for x, on in (
+        ('outer', outer), ('inner', inner), ('case', case)) if on)
+    kws = tuple(sorted({w for w, kw in toks if kw and ' ' in w}))
+    return spell(False), spell(True), axes, ('procedural', kws)
+
+
 def shard(ctx):
     rng = ctx.rng
     gen = grammar.Gen(rng)
     while ctx.running():
-        base, resp, axes, meta = make_pair(rng, gen)
+        if rng.random() < 0.15:
+            base, resp, axes, meta = make_proc_pair(rng)
+        else:
+            base, resp, axes, meta = make_pair(rng, gen)
         check(ctx, base, resp, axes, meta)
 
 
